@@ -283,6 +283,16 @@ func Run(r *fw.Run) {
 			}
 		}
 	}
+	// vendor directories inside vendor directories (which "vendor" element decides depends on the go version)
+	{
+		vv := []string{"go.mod", "cmd/vendor/vendor/v.go", "cmd/vendor/example.com/x/internal/vendor/v.go", "a/vendor/b/vendor/c.go", "vendor/vendor/x.go", "vendor/a/vendor/b.go", "a/vendor/v.go", "a/vendor/vendor.go", "a/vendor/b/c.go", "vendor/modules.txt", "a/vendor/modules.txt", "a/vendor/vendor/modules.txt", "vendor/vendor/modules.txt", "x/vendorvendor/vendor/y.go", "vendor.go", "a/vendor"}
+		for i := 1; i < len(vv); i++ {
+			jobs = append(jobs, job{[]string{"go.mod", vv[i]}})
+			for j := i + 1; j < len(vv); j++ {
+				jobs = append(jobs, job{[]string{"go.mod", vv[i], vv[j]}})
+			}
+		}
+	}
 	// collisions above the parent directory: every list of 2..4 paths over a mini pool with two files below
 	// the same deeper directory of a colliding ancestor
 	{
